@@ -31,12 +31,19 @@ func verifInside(in, out hcl.Range) bool {
 	return verifAnd(out.Start.Byte <= in.Start.Byte, in.End.Byte <= out.End.Byte)
 }
 
-func VerifP_C02C11_Inverse_N() int { return 3 }
+func VerifP_C02C11_Inverse_N() int { return 4 }
 func VerifP_C02C11_Inverse_Name(i int) string {
-	return []string{"local-origin", "path-origin", "block-local-names"}[i]
+	return []string{"local-origin", "path-origin", "block-local-names", "path-origin-same-directory"}[i]
 }
 func VerifP_C02C11_Inverse(mode int) {
 	p1, p2 := lang.Path{Path: "p1"}, lang.Path{Path: "p2"}
+	if mode == 3 {
+		// the other path is the same directory in another language (*.tf and *.tfvars of one module);
+		// otherwise the instance is the path-origin one
+		p2 = lang.Path{Path: "p1", LanguageID: "vars"}
+		mode = 1
+	}
+	k2 := verifKeyOfPath(p2)
 	typ := []cty.Type{cty.NilType, cty.String, cty.DynamicPseudoType}[verifChoice("ttype", 3)]
 	scope := []lang.ScopeId{"variable", "other"}[verifChoice("tscope", 2)]
 	mkTargets := func(tag, file string) reference.Targets {
@@ -47,7 +54,7 @@ func VerifP_C02C11_Inverse(mode int) {
 		rn := verifLineRange(tag+"rn", file, 0, 40)
 		dn := verifLineRange(tag+"dn", file, 0, 40)
 		verifAssume(verifAnd(verifInside(rn, r0), verifInside(dn, rn)))
-		if verifChoiceIf(mode == 1, tag+"nshare", 2, 0) == 1 {
+		if verifChoiceIf(mode == 1 && tag == "b", tag+"nshare", 2, 0) == 1 {
 			// a nested declaration that shares extent and header with its parent (targetables of a block)
 			rn, dn = r0, d0
 		} else {
@@ -59,7 +66,7 @@ func VerifP_C02C11_Inverse(mode int) {
 		t0 := reference.Target{Addr: lang.Address{lang.RootStep{Name: "var"}, lang.AttrStep{Name: "foo"}}, ScopeId: scope, Type: typ, RangePtr: &r0, DefRangePtr: &d0}
 		t0.NestedTargets = reference.Targets{{Addr: lang.Address{lang.RootStep{Name: "var"}, lang.AttrStep{Name: "foo"}, lang.AttrStep{Name: "n"}}, ScopeId: scope, Type: cty.String, RangePtr: &rn, DefRangePtr: &dn}}
 		t1 := reference.Target{Addr: lang.Address{lang.RootStep{Name: "var"}, lang.AttrStep{Name: "bar"}}, ScopeId: scope, Type: cty.Number, RangePtr: &r1, DefRangePtr: &d1}
-		if mode == 1 && verifChoice(tag+"selfref", 2) == 1 {
+		if mode == 1 && tag == "b" && verifChoice(tag+"selfref", 2) == 1 {
 			// a self-referable declaration: it also has a block-local name, usable inside its extent
 			tfr := r0
 			t0.LocalAddr = lang.Address{lang.RootStep{Name: "self"}}
@@ -116,8 +123,8 @@ func VerifP_C02C11_Inverse(mode int) {
 	}
 	// a path listed first whose context may be unreadable
 	ctx0 := &PathContext{ReferenceTargets: reference.Targets{}, ReferenceOrigins: reference.Origins{}, Files: map[string]*hcl.File{}}
-	ctxs := map[string]*PathContext{"p0": ctx0, "p1": ctx1, "p2": ctx2}
-	d := NewDecoder(&verifFaultyReader{order: []string{"p0", "p1", "p2"}, ctxs: ctxs, fail: map[string]bool{"p0": verifBool("p0-unreadable")}})
+	ctxs := map[string]*PathContext{"p0": ctx0, "p1": ctx1, k2: ctx2}
+	d := NewDecoder(&verifFaultyReader{order: []string{"p0", "p1", k2}, ctxs: ctxs, fail: map[string]bool{"p0": verifBool("p0-unreadable")}})
 	d.SetContext(NewDecoderContext())
 
 	pos := hcl.Pos{Line: 1, Byte: verifInt("pos", 0, 90)}
@@ -127,7 +134,7 @@ func VerifP_C02C11_Inverse(mode int) {
 	found, err := d.ReferenceTargetsForOriginAtPos(p1, "o.tf", pos)
 	if err == nil {
 		for _, t := range found {
-			verifAssert(t.Path.Path == targetPath.Path, "C11:resolved-against-the-right-path")
+			verifAssert(t.Path.Equals(targetPath), "C11:resolved-against-the-right-path")
 			if mode == 2 && oAddr[0].String() == "count" {
 				// a block-local name resolves only to the enclosing block's declaration
 				verifAssert(verifAnd(t.Range.Filename == "o.tf", verifAnd(t.Range.Start.Byte <= oRange.End.Byte, oRange.Start.Byte <= t.Range.End.Byte)), "C11:local-name-resolves-only-inside-its-block")
@@ -144,16 +151,16 @@ func VerifP_C02C11_Inverse(mode int) {
 			for _, o := range back {
 				// every reported origin is an origin of the path it is reported for
 				own := false
-				if c, known := ctxs[o.Path.Path]; known {
+				if c, known := ctxs[verifKeyOfPath(o.Path)]; known {
 					for _, po := range c.ReferenceOrigins {
 						own = verifOr(own, verifAnd(po.OriginRange().Filename == o.Range.Filename, verifAnd(po.OriginRange().Start.Byte == o.Range.Start.Byte, po.OriginRange().End.Byte == o.Range.End.Byte)))
 					}
 				}
 				verifAssert(own, "C02:lookup-origin-belongs-to-the-path-it-is-reported-for")
-				if o.Path.Path == "p1" && o.Range.Filename == "o.tf" {
+				if o.Path.Equals(p1) && o.Range.Filename == "o.tf" {
 					ok = verifOr(ok, verifAnd(o.Range.Start.Byte == oRange.Start.Byte, o.Range.End.Byte == oRange.End.Byte))
 				}
-				if o.Path.Path == "p2" && o.Range.Filename == "o.tf" {
+				if o.Path.Equals(p2) && o.Range.Filename == "o.tf" {
 					ok2 = verifOr(ok2, verifAnd(o.Range.Start.Byte == oRange.Start.Byte, o.Range.End.Byte == oRange.End.Byte))
 				}
 			}
